@@ -7,7 +7,9 @@ from .C08 import table
 LEVEL = "proof"
 THEOREMS = ['C16_simplex_fuse', 'C16_ecm_simplex_refused', 'C16_bare_simplex', 'C16_ptr_eq_redundant', 'C16_assign', 'C16_fuse_ptr_eq']
 RULE = ("each base case (fuse/fuse_os/fuse_ss x 4 operators, proj, umax, discount, mbr, deduce, deduce_with, inverse, abduce_with, prod2, "
-        "merge on dyadic operands) is run in every container family {[V;N], MArr1, MArrD1 usize, MArrD1 newtype} x {Opinion, OpinionRef} x "
+        "merge on dyadic operands; prod2 / prod3 also on the SMALL-BASE-RATE stream of C06 restricted to dyadic factors that are exact "
+        "in binary32: one base-rate entry 2^-k, k = 8..20, under a heavy mass, uncertainties 2^-j, other factors (nearly) dogmatic, 60% "
+        "steered to operands on which a cancelling binary32 evaluation of the joint uncertainty is visibly wrong) is run in every container family {[V;N], MArr1, MArrD1 usize, MArrD1 newtype} x {Opinion, OpinionRef} x "
         "{owned, borrowed tables} x {fuse, fuse_assign} x {f32, f64}; cross-case: all variants of one precision must agree within 4 ulps "
         "(identical bits are counted), f32 vs f64 within single-precision accuracy (64*2^-23; merge excluded as the property says); "
         "fuse_os must equal fuse with the shared left base rate and fuse_ss the belief part; ECm on bare simplexes must be refused")
@@ -99,12 +101,26 @@ def base_case(rng):
     return variants_1d("merge", [n1, n2, m], c1 + c2 + ax1 + ax2 + ay, fams=("A", "D", "N")), ("merge", 0)
 
 
+def small_rate_case(rng):
+    """a product with one small joint base rate on exactly well-formed dyadic factors that are exact in binary32 (hence in both
+    precisions): before repair abca806 the binary32 result was rounding noise divided by the small base rate, up to 0.1 away from the
+    binary64 one"""
+    from fractions import Fraction
+    arity = rng.choice([2, 2, 3])
+    while True:
+        ns, ws = G.small_rate_factors(rng, "f32", arity, hazard=rng.random() < 0.6)
+        if all(isinstance(x, Fraction) for w in ws for x in w):
+            break
+    sc = [x for w in ws for x in w]
+    return variants_1d("prod2" if arity == 2 else "prod3", ns, sc, fams=("M", "D", "N")), ("plain", 0)
+
+
 def cases(rng, tier):
     CROSS_GROUPS[0] = 0
     out = []
     N = 220 if tier == "quick" else 4000
-    for _ in range(N):
-        vs, info = base_case(rng)
+    for t in range(N + N // 6):
+        vs, info = small_rate_case(rng) if t >= N else base_case(rng)
         gid = CROSS_GROUPS[0]; CROSS_GROUPS[0] += 1
         for fmt in ("f64", "f32"):
             for (op, var, ints, scal) in vs:
